@@ -355,6 +355,11 @@ func Guards(b *ssa.BasicBlock) []Cond {
 
 // isLoopHeader: d has a back-edge predecessor (a predecessor it dominates).
 func isLoopHeader(d *ssa.BasicBlock) bool {
+	// only the loop's own condition block (for.loop, rangeindex.loop, rangeiter.loop, ...): an
+	// early `if c { return }` at the top of a `for { }` body is an ordinary guard.
+	if !strings.HasSuffix(d.Comment, ".loop") {
+		return false
+	}
 	for _, p := range d.Preds {
 		if d.Dominates(p) {
 			return true
@@ -976,4 +981,71 @@ func TruthOnlyIf(fn *ssa.Function, isP func(v ssa.Value) (decides bool, holdsWhe
 		}
 	}
 	return bad
+}
+
+// RetVal returns the i-th result of ret, resolving the "defer spill" go/ssa emits in functions
+// with defers (`*cell = v; rundefers; t = *cell; return t`): the value stored into the spill cell
+// in the same block is returned instead of the reload (named results modified by deferred
+// closures are out of scope of this resolution and yield the load itself).
+func RetVal(ret *ssa.Return, i int) ssa.Value {
+	if i >= len(ret.Results) {
+		return nil
+	}
+	v := ret.Results[i]
+	u, ok := v.(*ssa.UnOp)
+	if !ok || u.Op != token.MUL || u.Block() != ret.Block() {
+		return v
+	}
+	al, ok := u.X.(*ssa.Alloc)
+	if !ok {
+		return v
+	}
+	b := ret.Block()
+	for k := idx(u) - 1; k >= 0; k-- {
+		if st, ok := b.Instrs[k].(*ssa.Store); ok && st.Addr == ssa.Value(al) {
+			return st.Val
+		}
+	}
+	return v
+}
+
+// ReachingStores returns the stores to the cell read by load that can reach it (flow sensitive,
+// walking the CFG backwards; a store kills earlier stores on its path).
+func ReachingStores(load *ssa.UnOp) []*ssa.Store {
+	cell := load.X
+	var out []*ssa.Store
+	seen := map[*ssa.BasicBlock]bool{}
+	var scan func(b *ssa.BasicBlock, from int)
+	scan = func(b *ssa.BasicBlock, from int) {
+		for i := from; i >= 0; i-- {
+			if st, ok := b.Instrs[i].(*ssa.Store); ok && st.Addr == cell {
+				out = append(out, st)
+				return
+			}
+		}
+		for _, p := range b.Preds {
+			if seen[p] {
+				continue
+			}
+			seen[p] = true
+			scan(p, len(p.Instrs)-1)
+		}
+	}
+	scan(load.Block(), idx(load)-1)
+	return out
+}
+
+// StoreBetween reports whether some store to cell can execute after `from` and before `to`.
+func StoreBetween(cell ssa.Value, from, to ssa.Instruction) bool {
+	if cell.Referrers() == nil {
+		return false
+	}
+	for _, r := range *cell.Referrers() {
+		if st, ok := r.(*ssa.Store); ok && st.Addr == cell {
+			if CanReach(from, st) && CanReach(st, to) {
+				return true
+			}
+		}
+	}
+	return false
 }
